@@ -512,6 +512,22 @@ def _reference_failures(n, seed, limit=3):
                     pts = da.coords['time']['time', s:e]
                     if not (sc.all(pts >= lo).value and sc.all(pts < hi).value and sc.identical(lo, pts.min())):
                         prob = f'collapsed interval of plateau {b} does not contain its points half-open'
+            # a selection of the plateaus (a slice is a view on the whole event buffer) collapses to the same rows
+            if prob is None and len(runs) >= 2:
+                nr = len(runs)
+                for a, b in {(0, nr - 1), (1, nr), (0, 1), (nr // 2, nr // 2 + 1), (1, max(2, nr - 1))}:
+                    try:
+                        part = flt.collapse_plateaus(out['plateau', a:b], coord='time')
+                    except Exception as e:
+                        prob = f'collapse_plateaus of plateaus [{a},{b}) of {nr} raised {type(e).__name__}: {e}'
+                        break
+                    want_mean = np.array([y[s_:e_].mean() for s_, e_ in runs[a:b]])
+                    if part.sizes.get('plateau') != b - a or not np.allclose(part.data.values, want_mean, rtol=1e-12, atol=1e-12):
+                        prob = f'collapse_plateaus of plateaus [{a},{b}) of {nr}: values are not the means of these plateaus'
+                        break
+                    if not sc.identical(part.coords['time'], col.coords['time']['plateau', a:b]):
+                        prob = f'collapse_plateaus of plateaus [{a},{b}) of {nr}: intervals differ from those of the same plateaus collapsed together with the others'
+                        break
         if prob:
             fails.append({**desc, 'problem': prob})
             if len(fails) >= limit:
@@ -558,7 +574,7 @@ def bounded_reference(chk, boost=False):
     n = 150 if chk.tier == 'quick' and not boost else 4000
     fails = _reference_failures(n, 40 + chk.seed)
     chk.bounded_check('brute-force-reference', 'real find_plateaus / collapse_plateaus / filter_in_phase vs an independent reference (maximal runs; exact rationals)',
-                      f'{n} random series of 2..120 points (float, int, datetime coordinates; slopes exactly at the tolerance) and {n} frequency sets', 2 * n, fails)
+                      f'{n} random series of 2..120 points (float, int, datetime coordinates; slopes exactly at the tolerance; slices of the plateaus collapsed on their own) and {n} frequency sets', 2 * n, fails)
 
 
 def replay(rec):
